@@ -154,6 +154,14 @@ for _cd in list(REGISTRY.get("C09", [])):
         _seen.add(("C09", _cd.name))
         contract(P, f"{_cd.name}[per-sample terms]", list(_cd.targets), min_obligations=1)(_wrap_trainer(_cd))
 
+# "an identically parameterised batch-size-1 copy" is usually produced by the batch-size setter: its contract (C14) that
+# every sample - kept or new - is left in the rest state of a fresh component belongs to this property too
+from . import c14_config as _c14  # noqa: E402,F401
+
+for _cd in list(REGISTRY.get("C14", [])):
+    if _cd.name == "LIF[setters_vs_constructor]" and not any(x.name == _cd.name for x in REGISTRY.get(P, [])):
+        contract(P, _cd.name, list(_cd.targets), min_obligations=_cd.min_obligations)(_cd.fn)
+
 SM = "inferno/neural/synapses/mixins.py"
 LIN = "inferno/neural/connections/linear.py"
 ND = "inferno/neural/functional/dynamics.py"
